@@ -17,6 +17,17 @@ const WIDE: &[&str] = &[
     "宽", "字符", "日本語", "한국어", "中文字符测试", "😀", "👍🏽", "🇬🇧", "ｆｕｌｌ", "、。", "宽a宽",
 ];
 
+/// Sequences whose width as a string differs from the sum of their
+/// characters' widths (emoji / text presentation selectors, ligatures,
+/// conjoining jamo), and other multi-character clusters.
+const SEQUENCES: &[&str] = &[
+    "\u{263a}\u{fe0f}", "\u{2764}\u{fe0f}", "\u{a9}\u{fe0f}", "1\u{fe0f}\u{20e3}", "\u{231a}\u{fe0e}",
+    "\u{1f3c0}\u{fe0e}", "\u{644}\u{627}", "\u{644}\u{622}", "\u{1f468}\u{200d}\u{1f469}\u{200d}\u{1f467}",
+    "\u{1f3f3}\u{fe0f}\u{200d}\u{1f308}", "\u{1100}\u{1161}\u{11a8}", "\u{e01}\u{e33}", "\u{915}\u{94d}\u{937}\u{93f}",
+    "\u{263a}\u{fe0f}\u{263a}\u{fe0f}\u{263a}\u{fe0f}", "x\u{fe0f}", "\u{fe0f}", "\u{1f1e9}\u{1f1ea}\u{1f1e9}",
+    "\u{5d0}\u{5dc}", "\u{2d4f}\u{2d7f}\u{2d4f}", "\u{a4fc}\u{a4fd}", "\u{1a15}\u{1a17}\u{200d}\u{1a10}",
+];
+
 const ZERO_WIDTH: &[&str] = &[
     "\u{200B}", "\u{FEFF}", "\u{200D}", "\u{00AD}", "e\u{301}", "a\u{308}\u{304}", "\u{336}",
     "\u{FEFF}\u{FEFF}", "\u{2060}",
@@ -73,7 +84,19 @@ pub fn gen_word(rng: &mut Rng, mix: &TextMix, out: &mut String) {
     if k < 55 {
         out.push_str(rng.pick(WORDS));
     } else if k < 65 && mix.wide {
-        out.push_str(rng.pick(WIDE));
+        if rng.chance(1, 3) {
+            // often glued to the end of a word, so that the sequence meets the
+            // end of a line
+            if rng.chance(1, 2) {
+                let n = rng.urange(1, 12);
+                for i in 0..n {
+                    out.push((b'a' + (i % 26) as u8) as char);
+                }
+            }
+            out.push_str(rng.pick(SEQUENCES));
+        } else {
+            out.push_str(rng.pick(WIDE));
+        }
     } else if k < 73 && mix.zero {
         if rng.chance(1, 2) {
             out.push_str(rng.pick(WORDS));
@@ -318,6 +341,20 @@ impl<'a> DocGen<'a> {
         }
     }
 
+    /// An element with nothing in it (any element, anywhere).
+    fn empty_element(&mut self) {
+        let tag = match self.rng.below(4) {
+            0 => self.rng.pick(SPECIAL_TAGS),
+            1 => self.rng.pick(&["sup", "a", "em", "strong", "s", "code", "pre", "span", "li", "td", "p", "div"]),
+            _ => self.rng.pick(PHRASING_TAGS),
+        };
+        self.open(tag);
+        if self.rng.chance(1, 4) {
+            self.out.push_str(self.rng.pick(&[" ", "\n", "<!---->", "&#8203;"]));
+        }
+        self.close(tag);
+    }
+
     fn open(&mut self, tag: &str) {
         self.out.push('<');
         self.out.push_str(tag);
@@ -365,6 +402,9 @@ impl<'a> DocGen<'a> {
                 return;
             }
             self.comment();
+            if self.rng.chance(1, 25) {
+                self.empty_element();
+            }
             let k = self.rng.below(100);
             if k < 45 || depth >= self.p.max_depth {
                 self.text(8);
@@ -464,6 +504,10 @@ impl<'a> DocGen<'a> {
                     cols
                 };
                 for _ in 0..c {
+                    if self.rng.chance(1, 30) {
+                        // something which is not a cell, where a cell belongs
+                        self.empty_element();
+                    }
                     let tag = if self.rng.chance(1, 5) { "th" } else { "td" };
                     self.out.push('<');
                     self.out.push_str(tag);
@@ -523,8 +567,21 @@ impl<'a> DocGen<'a> {
             }
             if self.p.sloppy && self.rng.chance(1, 8) {
                 // non-li child
-                self.text(2);
-                self.out.push_str("<span>stray</span>");
+                match self.rng.below(5) {
+                    0 => {
+                        self.text(2);
+                        self.out.push_str("<span>stray</span>");
+                    }
+                    1 => self.empty_element(),
+                    2 => self.out.push_str("<!-- c -->"),
+                    3 => self.inline(depth + 1),
+                    _ => {
+                        let t = self.rng.pick(PHRASING_TAGS);
+                        self.open(t);
+                        self.text(2);
+                        self.close(t);
+                    }
+                }
                 continue;
             }
             self.open("li");
@@ -583,6 +640,9 @@ impl<'a> DocGen<'a> {
                 return;
             }
             self.comment();
+            if self.rng.chance(1, 25) {
+                self.empty_element();
+            }
             let k = self.rng.below(100);
             if depth >= self.p.max_depth || k < 30 {
                 let tag = self.rng.pick(&["p", "p", "p", "div", "h1", "h2", "h3", "h4", "h5", "h6"]);
@@ -754,8 +814,21 @@ pub fn gen_doc_from_seeds(rng: &mut Rng, target_len: usize, mix: &TextMix, huge_
 // ---------------------------------------------------------------- css
 
 pub fn gen_colour(rng: &mut Rng) -> String {
-    let k = rng.below(12);
+    let k = rng.below(14);
     match k {
+        12 => rng
+            .pick(&[
+                "12345\u{e9}", "bleu fonc\u{e9}", "a\u{20ac}\u{20ac}", "\u{5bbd}\u{5bbd}\u{5bbd}", "#12345\u{e9}", "\u{ff}\u{ff}\u{ff}\u{ff}\u{ff}\u{ff}", "", "#",
+                "00aabb", "0a\u{e9}bcd", "#\u{e9}", "1234\u{1f600}", "zzzzzz", "12345", "1234567", "  fff  ", "#ggg",
+            ])
+            .to_string(),
+        13 => rng
+            .pick(&[
+                "aqua", "black", "fuchsia", "gray", "green", "lime", "maroon", "navy", "olive", "orange", "purple",
+                "silver", "teal", "white", "yellow", "RED", "#ABC", "rgb(255,0,0)", "rgb( 1 , 2 , 3 )", "rgb(1.5, 2, 3)",
+                "rgb(-1, 2, 3)", "rgb(1, 2)", "rgb(1, 2, 3, 4)", "rgb()", "rgb(1e9, 0, 0)", "hsl(1, 2%, 3%)",
+            ])
+            .to_string(),
         0 => "red".into(),
         1 => "#fff".into(),
         2 => format!("#{:06x}", rng.below(1 << 24)),
@@ -991,7 +1064,17 @@ pub fn gen_valid_rule(rng: &mut Rng, out: &mut String) {
     }
     let n = rng.urange(if pseudo { 0 } else { 1 }, 3);
     for _ in 0..n {
-        let d = match rng.below(12) {
+        let d = match rng.below(17) {
+            12 => format!("display: {}", rng.pick(&["x-raw-dom", "block", "inline-block", "table-cell", "list-item"])),
+            13 => format!("background: {}", rng.pick(&["red", "#abc", "#a1b2c3", "rgb(9, 8, 7)", "none", "url(x.png)", "red url(x.png) no-repeat"])),
+            14 => format!(
+                "{}: {}{}",
+                rng.pick(&["height", "max-height"]),
+                rng.pick(&["0", "0.0", "1", "10", "-1", "+0", ".5", "0.000001", "100000000000000000000"]),
+                rng.pick(&["", "px", "em", "ex", "pt", "pc", "in", "cm", "mm", "%"])
+            ),
+            15 => format!("{}: {}", rng.pick(&["overflow", "overflow-y"]), rng.pick(&["hidden", "visible", "scroll", "auto"])),
+            16 => format!("color: {}", gen_colour(rng).replace(';', "")),
             0..=2 => format!("color: {}", rng.pick(&["red", "#fff", "#123456", "rgb(1, 2, 3)", "blue"])),
             3 => format!("background-color: {}", rng.pick(&["#000", "#abcdef", "red"])),
             4 | 5 => "display: none".to_string(),
@@ -1006,6 +1089,84 @@ pub fn gen_valid_rule(rng: &mut Rng, out: &mut String) {
         out.push_str("; ");
     }
     out.push_str("}\n");
+}
+
+/// One rule whose selector is very long in one of several ways: `n`
+/// components in a compound, a chain of combinators, or a selector list.
+pub fn gen_long_selector_sheet(rng: &mut Rng, n: usize) -> String {
+    let mut out = String::new();
+    let simple = |rng: &mut Rng| -> String {
+        match rng.below(6) {
+            0 => format!(".{}", rng.pick(CLASSES)),
+            1 => rng.pick(&["div", "p", "span", "td", "li", "em", "b"]).to_string(),
+            2 => format!("#{}", rng.pick(IDS)),
+            3 => "*".to_string(),
+            4 => ":nth-child(n)".to_string(),
+            _ => format!("{}.{}", rng.pick(&["div", "p", "span"]), rng.pick(CLASSES)),
+        }
+    };
+    match rng.below(6) {
+        0 => {
+            // one compound: .c0.c0.c0 ...
+            if rng.chance(1, 2) {
+                out.push_str(rng.pick(&["div", "p", "span", "td", "*"]));
+            }
+            let c = format!(".{}", rng.pick(CLASSES));
+            for _ in 0..n {
+                out.push_str(&c);
+            }
+        }
+        1 => {
+            // a compound of mixed components
+            for _ in 0..n {
+                match rng.below(3) {
+                    0 => out.push_str(&format!(".{}", rng.pick(CLASSES))),
+                    1 => out.push_str(&format!("#{}", rng.pick(IDS))),
+                    _ => out.push_str(":nth-child(n)"),
+                }
+            }
+        }
+        2 | 3 => {
+            // a chain with one kind of combinator, or alternating kinds
+            let alt = rng.chance(1, 2);
+            let comb = rng.pick(&[" ", " > ", ">", "  "]);
+            let s = simple(rng);
+            let vary = rng.chance(1, 2);
+            for i in 0..n {
+                if i > 0 {
+                    if alt {
+                        out.push_str(if i % 2 == 0 { " " } else { " > " });
+                    } else {
+                        out.push_str(comb);
+                    }
+                }
+                if vary {
+                    out.push_str(&simple(rng));
+                } else {
+                    out.push_str(&s);
+                }
+            }
+        }
+        4 => {
+            // a selector list
+            for i in 0..n {
+                if i > 0 {
+                    out.push_str(rng.pick(&[",", ", "]));
+                }
+                out.push_str(&simple(rng));
+            }
+        }
+        _ => {
+            // many rules
+            for _ in 0..n.min(3000) {
+                out.push_str(&simple(rng));
+                out.push_str("{color:red;}");
+            }
+            return out;
+        }
+    }
+    out.push_str(rng.pick(&[" { color: red; }", " { display: none; }", "{color:#123456 !important;}", "::before { content: \"x\"; }"]));
+    out
 }
 
 pub fn gen_sheet(rng: &mut Rng, out: &mut String, max_rules: usize, sloppy: bool) {
